@@ -61,17 +61,22 @@ Definition chk_version (data : list N) (observed : res version) : bool :=
 (* upload: replay the model client against the recorded replies; every request, every
    sleep, the outcome, and no recorded reply left unread *)
 Definition unit_eqb (a b : unit) : bool := true.
-Definition chk_upload (block_size : nat) (binary : list N) (timeout interval : N) (retry : Z)
-           (replies : list reply) (reqs : list request) (sleeps : list N) (outcome : res unit) : bool :=
-  let '(r, qs, sl, unread) := replay (upload_binary block_size binary timeout interval retry) replies [] [] in
-  res_same unit_eqb r outcome && list_eqb request_eqb qs reqs && bytes_eqb sl sleeps
+(* one recorded exchange, compactly: netfn cmd lun "request data" "reply bytes" *)
+Definition ex (n c l : N) (d r : String.string) : request * reply := (mkReq n c l (hx d), RBytes (hx r)).
+Definition exr (n c l : N) (d : String.string) (e : err) : request * reply := (mkReq n c l (hx d), RRaise e).
+
+Definition chk_client (p : prog unit) (tr : list (request * reply)) (sleeps : list N) (outcome : res unit) : bool :=
+  let '(r, qs, sl, unread) := replay p (map snd tr) [] [] in
+  res_same unit_eqb r outcome && list_eqb request_eqb qs (map fst tr) && bytes_eqb sl sleeps
   && match unread with [] => true | _ => false end.
 
-Definition chk_wait (timeout interval : N) (replies : list reply) (reqs : list request)
-           (sleeps : list N) (outcome : res unit) : bool :=
-  let '(r, qs, sl, unread) := replay (wait_for_long_duration_command timeout interval) replies [] [] in
-  res_same unit_eqb r outcome && list_eqb request_eqb qs reqs && bytes_eqb sl sleeps
-  && match unread with [] => true | _ => false end.
+Definition chk_upload (block_size : nat) (binary : list N) (timeout interval : N) (retry : Z)
+           (tr : list (request * reply)) (sleeps : list N) (outcome : res unit) : bool :=
+  chk_client (upload_binary block_size binary timeout interval retry) tr sleeps outcome.
+
+Definition chk_wait (timeout interval : N) (tr : list (request * reply)) (sleeps : list N)
+           (outcome : res unit) : bool :=
+  chk_client (wait_for_long_duration_command timeout interval) tr sleeps outcome.
 
 (* the Gallina reference device gives the recorded replies on the recorded requests *)
 Definition reply_eqb (a b : reply) : bool :=
@@ -87,3 +92,8 @@ Fixpoint dev_replies (s : dstate) (tr : list (request * reply)) : bool :=
   end.
 Definition chk_device (plan : list answer) (tr : list (request * reply)) : bool :=
   dev_replies (d_init plan) tr.
+
+(* both at once on one recorded run (the transcript literal is written once) *)
+Definition chk_upload_dev (block_size : nat) (binary : list N) (timeout interval : N) (retry : Z)
+           (plan : list answer) (tr : list (request * reply)) (sleeps : list N) (outcome : res unit) : bool :=
+  chk_upload block_size binary timeout interval retry tr sleeps outcome && chk_device plan tr.
